@@ -230,10 +230,43 @@ def _mol(ctx, case):
                 what = "PlanarBond-only-from-coordinates"
         if fam == "a2" and "placeholder" in what:
             key = f"C14/placeholder-not-perceived/{what.split('-')[0]}"
+        elif _only_unlabelled_units_differ(m, a, b):
+            # recorded finding (same mechanism as C12's): from_rdmol runs with stereo_complete=True and invents a
+            # configuration for units RDKit left unlabelled; RDKit does not recognise every stereogenic unit (axial
+            # chirality of alkylidene-cycloalkanes such as ClC(I)=C1CC(Cl)C1), so "one stereoisomer" cannot be enforced
+            ctx.count("unlabelled_unit_disagreements")
+            key = "C14/routes-disagree/unlabelled-unit/stereo_complete=1"
         else:
             key = f"C14/routes-disagree/{fam}/{what}"
         ctx.violate(key, f"{case['smiles']} (embed seed {case['eseed']}, relax={case['relax']}): RDKit-annotation graph and 3D graph compare {'equal' if real else 'unequal'} (reference: {'isomorphic' if ref else 'not isomorphic'}); {what}", case)
     ctx.sample({"smiles": case["smiles"], "family": fam, "embed_seed": case["eseed"], "n_atoms": len(els)})
+
+
+def _only_unlabelled_units_differ(m, a, b):
+    """both snapshots use the RDKit indices. True when they have the same descriptor keys and every descriptor that
+    differs sits on a unit WITHOUT an RDKit label (untagged atom, STEREONONE / STEREOANY bond) and has the same class and
+    ligand set on both sides"""
+    from rdkit import Chem
+
+    n = 0
+    for key in ("astereo", "bstereo"):
+        if set(a[key]) != set(b[key]):
+            return False
+        for k2, d in a[key].items():
+            e = b[key][k2]
+            if sem.desc_equiv(d, e):
+                continue
+            if d[0] != e[0] or sorted(map(repr, d[1])) != sorted(map(repr, e[1])):
+                return False
+            if key == "astereo":
+                if m.GetAtomWithIdx(k2).GetChiralTag() != Chem.ChiralType.CHI_UNSPECIFIED:
+                    return False
+            else:
+                x, y = tuple(k2)
+                if m.GetBondBetweenAtoms(x, y).GetStereo() not in (Chem.BondStereo.STEREONONE, Chem.BondStereo.STEREOANY):
+                    return False
+            n += 1
+    return n > 0
 
 
 def _complex(ctx, case):
